@@ -81,8 +81,9 @@ class BusProtocol (txdbus.protocol.BasicDBusProtocol):
 
         msg.sender = self.uniqueName
 
-        # re-marshal with the sender set and same serial number
-        msg._marshal(False)
+        # re-marshal with the sender set and same serial number; the body
+        # is passed on exactly as received
+        msg._marshal(False, rawBody=msg.rawBody)
 
         self.bus.messageReceived(self, msg)
 
